@@ -61,18 +61,21 @@ Record c12_case : Type := mk_c12 {
 }.
 
 (** Components: 1 = outcome, 2 = statements / arguments / transaction brackets, 3 = the callers that
-    reached the batch function are not exactly those the model lets through. *)
+    reached the batch function are not exactly those the model lets through, 4 = the generated case does
+    not meet the well-formedness hypotheses of the theorems (a harness defect). *)
 Definition c12_check (c : c12_case) : list nat :=
   match k_op c with
   | Single o =>
       let (ev, out) := run (k_handle c) (k_table c) (k_ctx c) o in
       (if nat_list_eqb [outcome_code out] (k_outcomes c) then [] else [1])
       ++ (if obs_list_eqb (map obs_of_event ev) (k_events c) then [] else [2])
+      ++ (if op_wfb (k_handle c) (k_table c) o then [] else [4])
   | Batched fs arrival =>
       let (ev, outs) := run_batched (k_handle c) (k_table c) fs arrival in
       (if nat_list_eqb (map outcome_code outs) (k_outcomes c) then [] else [1])
       ++ (if obs_list_eqb (map obs_of_event ev) (k_events c) then [] else [2])
       ++ (if arrival_consistent (k_handle c) (k_table c) fs arrival then [] else [3])
+      ++ (if batched_wfb (k_handle c) (k_table c) fs then [] else [4])
   end.
 
 Fixpoint mismatches_c12 (_ : nat) (cs : list (nat * c12_case)) : list (nat * list nat) :=
